@@ -38,27 +38,28 @@ Qed.
 
 (* ---- chunking independence of readStreamEstablishHeader ---- *)
 
-Lemma exhausted_length ch (l : bytes) : exhausted (ch, l) = (length l =? 0)%nat.
-Proof. unfold exhausted, sdata. cbn [snd]. destruct l; reflexivity. Qed.
+(* both kinds of reader give the same bytes, rest and failure flag *)
+Lemma rd_eq de n s :
+  rd de n s = (fst (read_full n s), snd (read_full n s), (length (fst (read_full n s)) <? n)%nat).
+Proof.
+  unfold rd. destruct de; [apply read_full_de_eq|]. destruct (read_full n s); reflexivity.
+Qed.
 
 Theorem read_header_de_pure : forall de ch D,
   exists ch', read_header_de de (ch, D) =
-    match parse_header_de de D with
+    match parse_header D with
     | Ok (pid, rest) => Ok (pid, (ch', rest))
     | Err k => Err k
     | Panic => Panic
     end.
 Proof.
-  intros de ch D. unfold read_header_de, parse_header_de. change prefetch with 4%nat.
-  destruct (read_full_spec 4 (ch, D)) as (ch1 & R1). rewrite R1. cbn [snd].
+  intros de ch D. unfold read_header_de, parse_header. change prefetch with 4%nat.
+  rewrite rd_eq.
+  destruct (read_full_spec 4 (ch, D)) as (ch1 & R1). rewrite R1. cbn [fst snd].
   rewrite firstn_length.
   destruct (Nat.ltb_spec (Nat.min 4 (length D)) 4) as [Hs|Hs];
     destruct (Nat.ltb_spec (length D) 4) as [Hd|Hd]; try lia.
   { exists ch. reflexivity. }
-  rewrite exhausted_length, skipn_length.
-  assert (Ex1 : (length D - 4 =? 0)%nat = (length D =? 4)%nat).
-  { destruct (Nat.eqb_spec (length D - 4) 0), (Nat.eqb_spec (length D) 4); try reflexivity; lia. }
-  rewrite Ex1. destruct (de && (length D =? 4)%nat); [exists ch; reflexivity|].
   destruct (varint_dec (firstn 4 D)) as [hl n0|] eqn:Ev; [|exists ch; reflexivity].
   pose proof (vdec_n _ _ _ _ _ Ev) as [Hn0 Hn0l]. rewrite firstn_length in Hn0l.
   destruct (Nat.ltb_spec (Nat.min 4 (length D)) n0) as [C|_]; [lia|].
@@ -70,22 +71,17 @@ Proof.
   assert (LX : length (skipn n0 D) = (length D - n0)%nat) by apply skipn_length.
   set (hln := Z.to_nat hl) in *.
   destruct (Nat.ltb_spec (4 - n0) hln) as [Hlong|Hshort].
-  - destruct (read_full_spec (hln - (4 - n0)) (ch1, skipn 4 D)) as (ch2 & R2). rewrite R2. cbn [snd].
+  - rewrite rd_eq.
+    destruct (read_full_spec (hln - (4 - n0)) (ch1, skipn 4 D)) as (ch2 & R2). rewrite R2. cbn [fst snd].
     destruct (body_long D n0 hln Hn4 Hd Hlong) as [B1 B2]. rewrite B1, B2.
     rewrite firstn_length, skipn_length.
     destruct (Nat.ltb_spec (Nat.min (hln - (4 - n0)) (length D - 4)) (hln - (4 - n0)));
       destruct (Nat.ltb_spec (length (skipn n0 D)) hln); try lia.
     + exists ch. reflexivity.
-    + rewrite exhausted_length, skipn_length.
-      assert (Ex2 : (length (skipn n0 D) - hln =? 0)%nat = (length (skipn n0 D) =? hln)%nat).
-      { destruct (Nat.eqb_spec (length (skipn n0 D) - hln) 0), (Nat.eqb_spec (length (skipn n0 D)) hln); try reflexivity; lia. }
-      rewrite Ex2. cbn [andb]. rewrite andb_true_r.
-      destruct (de && (length (skipn n0 D) =? hln)%nat); [exists ch; reflexivity|].
-      replace (Nat.max hln (4 - n0)) with hln by lia.
+    + replace (Nat.max hln (4 - n0)) with hln by lia.
       exists ch2. destruct (unmarshal (firstn hln (skipn n0 D))); reflexivity.
   - destruct (body_short D n0 hln Hn4 Hd Hshort) as [B1 B2]. rewrite B1.
     destruct (Nat.ltb_spec (length (skipn n0 D)) hln); [lia|].
-    rewrite andb_false_r. cbn [andb].
     replace (Nat.max hln (4 - n0)) with (4 - n0)%nat by lia. rewrite <- B2.
     exists ch1. destruct (unmarshal (firstn hln (skipn n0 D))); reflexivity.
 Qed.
@@ -100,11 +96,11 @@ Theorem read_header_pure : forall ch D,
 Proof. intros. apply (read_header_de_pure false). Qed.
 
 Theorem handle_incoming_de_pure : forall de local remote ch D,
-  handle_incoming_de de local remote (ch, D) = handle_pure_de de local remote D.
+  handle_incoming_de de local remote (ch, D) = handle_pure local remote D.
 Proof.
-  intros de local remote ch D. unfold handle_incoming_de, handle_pure_de.
+  intros de local remote ch D. unfold handle_incoming_de, handle_pure.
   destruct (read_header_de_pure de ch D) as (ch' & R). rewrite R.
-  destruct (parse_header_de de D) as [[pid rest]|k|]; try reflexivity.
+  destruct (parse_header D) as [[pid rest]|k|]; try reflexivity.
 Qed.
 
 Theorem handle_incoming_pure : forall local remote ch D,
@@ -117,7 +113,7 @@ Qed.
 
 Lemma parse_header_no_panic D : parse_header D <> Panic.
 Proof.
-  unfold parse_header, parse_header_de. cbn [andb]. destruct (length D <? prefetch)%nat; [discriminate|].
+  unfold parse_header. destruct (length D <? prefetch)%nat; [discriminate|].
   destruct (varint_dec (firstn prefetch D)); [|discriminate].
   destruct (v >? max_int32); [discriminate|].
   destruct ((v >? stream_establish_max) || (v =? 0)); [discriminate|].
@@ -214,7 +210,7 @@ Proof.
   assert (Hn3 : (length V <= 3)%nat).
   { apply (venc_small 3 10 L); try lia. }
   assert (Hn1 : (1 <= length V)%nat) by (apply venc_length_pos; lia).
-  rewrite <- app_assoc. unfold parse_header, parse_header_de. cbn [andb]. change prefetch with 4%nat.
+  rewrite <- app_assoc. unfold parse_header. change prefetch with 4%nat.
   rewrite !app_length. fold L.
   destruct (Nat.ltb_spec (length V + (length B + length payload)) 4); [lia|].
   rewrite firstn_app. rewrite (firstn_all2 (n:=4%nat) V) by lia.
@@ -354,7 +350,7 @@ Proof.
   destruct (parse_header D) as [[pid' rest']|k|] eqn:Ep; try discriminate.
   destruct (pid_validate pid') eqn:Ev; [discriminate|]. injection H as -> -> -> ->.
   apply pid_validate_ok in Ev. repeat split; try apply Ev.
-  unfold parse_header, parse_header_de in Ep. cbn [andb] in Ep. change prefetch with 4%nat in Ep.
+  unfold parse_header in Ep. change prefetch with 4%nat in Ep.
   destruct (Nat.ltb_spec (length D) 4) as [|Hd]; [discriminate|].
   destruct (varint_dec (firstn 4 D)) as [hl n|] eqn:Ew; [|discriminate].
   apply varint_dec_firstn4 in Ew as (Ew & Hn & Hnl).
@@ -422,7 +418,7 @@ Inductive malformed (D : bytes) : Prop :=
 Theorem handle_pure_reject : forall local remote D,
   malformed D -> exists k, handle_pure local remote D = Closed k.
 Proof.
-  intros local remote D M. unfold handle_pure, parse_header, parse_header_de. cbn [andb]. change prefetch with 4%nat.
+  intros local remote D M. unfold handle_pure, parse_header. change prefetch with 4%nat.
   destruct (Nat.ltb_spec (length D) 4) as [|Hd]; [eexists; reflexivity|].
   destruct (varint_dec (firstn 4 D)) as [hl n|] eqn:Ew; [|eexists; reflexivity].
   destruct (hl >? max_int32); [eexists; reflexivity|].
@@ -451,7 +447,7 @@ Proof. intros. rewrite handle_incoming_pure. apply handle_pure_reject. assumptio
 Theorem handle_pure_closed_malformed : forall local remote D k,
   handle_pure local remote D = Closed k -> malformed D.
 Proof.
-  intros local remote D k H. unfold handle_pure, parse_header, parse_header_de in H. cbn [andb] in H. change prefetch with 4%nat in H.
+  intros local remote D k H. unfold handle_pure, parse_header in H. change prefetch with 4%nat in H.
   destruct (Nat.ltb_spec (length D) 4) as [Hd|Hd]; [apply mf_short_prefix; assumption|].
   destruct (varint_dec (firstn 4 D)) as [hl n|] eqn:Ew; [|apply mf_varint; assumption].
   destruct (Z.gtb_spec hl max_int32) as [Hi|Hi].
@@ -485,65 +481,17 @@ Qed.
 
 (* ---- readers that report the end together with the last bytes ---- *)
 
-(* a stream that is dispatched by an ordinary reader and leaves something for
-   the application is dispatched identically when the end error comes with the
-   last bytes *)
-Lemma parse_header_de_nonempty_rest : forall D pid rest,
-  parse_header D = Ok (pid, rest) -> rest <> [] -> parse_header_de true D = Ok (pid, rest).
+Theorem handle_de_roundtrip : forall de pid payload ch local remote,
+  pid_ok pid -> Z.of_nat (length (marshal_body pid)) <= stream_establish_max ->
+  handle_incoming_de de local remote (ch, marshal_header pid ++ payload) = Dispatch pid local remote payload.
 Proof.
-  intros D pid rest H Hr. unfold parse_header, parse_header_de in *. cbn [andb] in *.
-  change prefetch with 4%nat in *.
-  destruct (Nat.ltb_spec (length D) 4) as [|Hd]; [discriminate|].
-  destruct (varint_dec (firstn 4 D)) as [hl n|] eqn:Ew.
-  2:{ destruct (length D =? 4)%nat; discriminate. }
-  pose proof (vdec_n _ _ _ _ _ Ew) as [Hn _].
-  destruct (hl >? max_int32); [destruct (length D =? 4)%nat; discriminate|].
-  destruct ((hl >? stream_establish_max) || (hl =? 0)); [destruct (length D =? 4)%nat; discriminate|].
-  destruct (Nat.ltb_spec (length (skipn n D)) (Z.to_nat hl)) as [|HX]; [destruct (length D =? 4)%nat; discriminate|].
-  destruct (unmarshal (firstn (Z.to_nat hl) (skipn n D))) as [p|] eqn:Eu.
-  2:{ destruct (length D =? 4)%nat; [discriminate|]. destruct ((4 - n <? Z.to_nat hl)%nat && (length (skipn n D) =? Z.to_nat hl)%nat); discriminate. }
-  assert (Hrest : rest = skipn (Nat.max (Z.to_nat hl) (4 - n)) (skipn n D)) by congruence.
-  assert (Hlen : (0 < length rest)%nat) by (destruct rest; [congruence|cbn; lia]).
-  rewrite Hrest, !skipn_length in Hlen. rewrite skipn_length in HX.
-  destruct (Nat.eqb_spec (length D) 4); [lia|].
-  destruct (Nat.ltb_spec (4 - n) (Z.to_nat hl)); cbn [andb]; [|exact H].
-  rewrite skipn_length. destruct (Nat.eqb_spec (length D - n) (Z.to_nat hl)); [lia|exact H].
-Qed.
-
-Theorem handle_de_roundtrip : forall pid payload ch local remote,
-  pid_ok pid -> Z.of_nat (length (marshal_body pid)) <= stream_establish_max -> payload <> [] ->
-  handle_incoming_de true local remote (ch, marshal_header pid ++ payload) = Dispatch pid local remote payload.
-Proof.
-  intros pid payload ch local remote Hok Hmax Hp. rewrite handle_incoming_de_pure. unfold handle_pure_de.
-  rewrite (parse_header_de_nonempty_rest _ pid payload); [|apply parse_header_roundtrip; [apply Hok|assumption]|assumption].
+  intros de pid payload ch local remote Hok Hmax. rewrite handle_incoming_de_pure. unfold handle_pure.
+  rewrite parse_header_roundtrip by (destruct Hok; assumption).
   apply pid_validate_ok in Hok. rewrite Hok. reflexivity.
 Qed.
 
-(* but a stream that consists of the header alone is dropped by such a reader:
-   the Read that delivers the last header byte also reports io.EOF and
-   readAtLeast returns the error without counting the bytes *)
-Theorem handle_de_header_only : forall pid ch local remote,
-  pid <> [] -> Z.of_nat (length (marshal_body pid)) <= stream_establish_max ->
-  handle_incoming_de true local remote (ch, marshal_header pid) = Closed E_EOF.
+Theorem handle_incoming_de_indep : forall de local remote s,
+  handle_incoming_de de local remote s = handle_incoming local remote s.
 Proof.
-  intros pid ch local remote Hp Hmax. rewrite handle_incoming_de_pure. unfold handle_pure_de.
-  destruct (marshal_body_length pid Hp) as (_ & HB3 & HBp).
-  unfold marshal_header. set (B := marshal_body pid) in *. set (L := Z.of_nat (length B)) in *.
-  set (V := varint_enc L).
-  assert (HL : 0 <= L <= 100000) by (unfold stream_establish_max in Hmax; lia).
-  assert (Hn3 : (length V <= 3)%nat) by (apply (venc_small 3 10 L); lia).
-  assert (Hn1 : (1 <= length V)%nat) by (apply venc_length_pos; lia).
-  unfold parse_header_de. change prefetch with 4%nat. rewrite app_length.
-  destruct (Nat.ltb_spec (length V + length B) 4); [lia|].
-  destruct (Nat.eqb_spec (length V + length B) 4); cbn [andb]; [reflexivity|].
-  rewrite firstn_app. rewrite (firstn_all2 (n:=4%nat) V) by lia.
-  unfold V at 1. rewrite varint_roundtrip by (unfold two64; lia). fold V.
-  rewrite Z.gtb_ltb. destruct (Z.ltb_spec max_int32 L); [unfold max_int32 in *; lia|].
-  rewrite Z.gtb_ltb. destruct (Z.ltb_spec stream_establish_max L); [lia|].
-  destruct (Z.eqb_spec L 0); [lia|]. cbn [orb].
-  rewrite (skipn_app_exact V B) by reflexivity.
-  unfold L. rewrite Nat2Z.id.
-  destruct (Nat.ltb_spec (length B) (length B)); [lia|].
-  destruct (Nat.ltb_spec (4 - length V) (length B)); [|lia].
-  rewrite Nat.eqb_refl. reflexivity.
+  intros de local remote [ch D]. rewrite handle_incoming_de_pure, handle_incoming_pure. reflexivity.
 Qed.
